@@ -39,10 +39,14 @@ def run(ctx):
     ctx.rule("K5", "stream wrappers keep the lanes apart: lane i of the wide stream word (8 data bits, its own k flag, 10 code bits) "
                    "is wired to word i of the coder and back -- index and slice bounds agree with the lane of the other side",
              min_sites=6)
+    ctx.rule("K6", "pipeline alignment: every def-use path from a code word's own inputs (d, k / input) to the outputs computed from "
+                   "it crosses exactly one register stage -- a flag read from the input port in the output stage belongs to the NEXT "
+                   "symbol (K flip applied one symbol late); the incoming disparity is used in the output stage only", min_sites=8)
     ctx.rule("PRIO", "no dead driver", min_sites=1)
 
     m = ctx.mod(F)
     _k5(ctx)
+    _k6(ctx)
     # ================================================================ K1
     fx = fx_of(ctx, F, "SingleEncoder")
     fail_closed(ctx, fx, "SingleEncoder")
@@ -301,6 +305,25 @@ def _lane(text, iv):
     if not isinstance(w, int) or w <= 0:
         return None
     return (base, w) if lin.sub(hi, lo) == {1: w} and not lin.sub(lo, {iv: w}) else None
+
+
+def _k6(ctx):
+    fx = fx_of(ctx, F, "SingleEncoder")
+    for out in ("self.output", "self.disp_out"):
+        dep = q.stage_depths(fx, out, ["self.d", "self.k", "self.disp_in"])
+        for inp, want in (("self.d", {1}), ("self.k", {1}), ("self.disp_in", {0})):
+            got = dep.get(inp, set())
+            ok = got == want
+            ctx.ob("K6", F, "SingleEncoder", f"{out} <- {inp}: register depth {sorted(want)}", ok,
+                   "" if ok else f"{inp} reaches {out} through {sorted(got)} register stage(s): the symbol's own {inp.split('.')[-1]} and "
+                                 f"the table look-ups registered from it are not in the same pipeline stage")
+    fx = fx_of(ctx, F, "Decoder")
+    for out in ("self.d", "self.k", "self.invalid"):
+        dep = q.stage_depths(fx, out, ["self.input"], mem_ports=["port_6b5b"])
+        got = dep.get("self.input", set())
+        ok = got == {1}
+        ctx.ob("K6", F, "Decoder", f"{out} <- self.input: register depth [1]", ok,
+               "" if ok else f"self.input reaches {out} through {sorted(got)} register stage(s): the outputs of one code word are not aligned")
 
 
 def _k5(ctx):
